@@ -915,6 +915,486 @@ def r4_hooks(run):
 # R5 lifespan
 # ---------------------------------------------------------------------------
 
+_LIFESPAN_PHASES = ('process_startup', 'process_shutdown')
+# builtins whose result is an ITERATOR: the first traversal consumes it, every later one sees it empty
+_ONE_SHOT_BUILTINS = ('reversed', 'iter', 'map', 'filter', 'zip', 'enumerate')
+
+
+class _Prepared:
+    """Where the iterable of a lifespan handler loop comes from, when it is prepared ahead of time."""
+    def __init__(self):
+        self.rev = 0            # parity of order reversals between the registered list and the loop
+        self.stored = None      # (writer Func, assignment) when the collection is kept on the app
+        self.one_shot = None    # (Func, expr) first layer under the store that is an iterator object
+        self.materialised = False
+        self.base = None        # ('registered',) | ('built', Func, name)
+        self.items = None       # 'component' | 'method'
+        self.phase = None       # for method items: the attribute the methods come from
+        self.helper = None
+        self.notes = []
+
+
+def _trace_lifespan_source(p, f, it):
+    """Follow the iterable of a handler loop of `f` back to the registered
+    middleware list: through locals bound once (also by tuple unpacking),
+    order-preserving copies, reversals, an attribute of the app that one method
+    stores, and a helper that builds the collection(s) from the list it is
+    handed.  Returns a _Prepared, or None when the chain does not lead to an app
+    attribute / helper at all (not a prepared collection)."""
+    res = _Prepared()
+
+    def bindings(fn, name):
+        out = []
+        for a in walk_self(fn.node):
+            if isinstance(a, ast.Assign):
+                for t in a.targets:
+                    if isinstance(t, ast.Name) and t.id == name:
+                        out.append((a, a.value, None))
+                    elif isinstance(t, (ast.Tuple, ast.List)):
+                        for i, e in enumerate(t.elts):
+                            if isinstance(e, ast.Name) and e.id == name:
+                                out.append((a, a.value, i))
+            elif isinstance(a, ast.AnnAssign) and a.value is not None and isinstance(a.target, ast.Name) and a.target.id == name:
+                out.append((a, a.value, None))
+        stores = sum(1 for x in walk_self(fn.node) if isinstance(x, ast.Name) and x.id == name and isinstance(x.ctx, (ast.Store, ast.Del)))
+        return out, stores
+
+    def attr_writers(cq, attr):
+        out = []
+        for k in p.mro(cq):
+            c = p.classes.get(k)
+            if c is None:
+                continue
+            for m in c.methods.values():
+                for a in walk_self(m.node):
+                    if isinstance(a, ast.Assign):
+                        for t in a.targets:
+                            if is_self_attr(t, attr):
+                                out.append((m, a, a.value, None))
+                            elif isinstance(t, (ast.Tuple, ast.List)):
+                                for i, e in enumerate(t.elts):
+                                    if is_self_attr(e, attr):
+                                        out.append((m, a, a.value, i))
+                    elif isinstance(a, (ast.AnnAssign, ast.AugAssign)) and getattr(a, 'value', None) is not None and is_self_attr(a.target, attr):
+                        out.append((m, a, a.value, None) if isinstance(a, ast.AnnAssign) else (m, a, None, None))
+                    elif isinstance(a, ast.Call) and isinstance(a.func, ast.Attribute) and is_self_attr(a.func.value, attr) \
+                            and a.func.attr in ('append', 'extend', 'insert', 'reverse', 'sort', 'pop', 'remove', 'clear'):
+                        out.append((m, a, None, None))
+        return out
+
+    def layer(fn, e, kind):
+        """account one wrapper: kind in 'mat' | 'shot'"""
+        if res.stored is None or res.one_shot is not None or res.materialised:
+            return
+        if kind == 'mat':
+            res.materialised = True
+        else:
+            res.one_shot = (fn, e)
+
+    def go(fn, e, path, frames, depth=0):
+        if depth > 24:
+            raise UnknownIdiom('%s: lifespan handler collection: definition too deep' % f.qual)
+        nxt = depth + 1
+        if isinstance(e, ast.Await):
+            return go(fn, e.value, path, frames, nxt)
+        if isinstance(e, ast.Name):
+            params = fn.params()
+            binds, stores = bindings(fn, e.id)
+            if e.id in params and not stores:
+                if frames:
+                    (cfn, call, callee) = frames[-1]
+                    idx = params.index(e.id) - (1 if callee.cls is not None and params and params[0] in ('self', 'cls') else 0)
+                    arg = None
+                    for k in call.keywords:
+                        if k.arg == e.id:
+                            arg = k.value
+                    if arg is None and 0 <= idx < len(call.args) and not any(isinstance(a, ast.Starred) for a in call.args):
+                        arg = call.args[idx]
+                    if arg is None:
+                        raise UnknownIdiom('%s: argument for %s not found in %s' % (cfn.qual, e.id, short(call)))
+                    return go(cfn, arg, path, frames[:-1], nxt)
+                # R6 (b): _prepare_middleware is handed the complete registered list by every add_middleware
+                if fn.name == '_prepare_middleware' and len(params) > 1 and e.id == params[1] and not path:
+                    res.base = ('registered',)
+                    return res
+                return None
+            if len(binds) == 1 and stores == 1:
+                a, v, i = binds[0]
+                if i is None and not path and ((isinstance(v, ast.List) and not v.elts) or (
+                        isinstance(v, ast.Call) and isinstance(v.func, ast.Name) and v.func.id in ('list', 'deque') and not v.args)):
+                    res.base = ('built', fn, e.id)
+                    res.frames = frames
+                    return res
+                return go(fn, v, ([i] if i is not None else []) + path, frames, nxt)
+            if not binds and not stores:
+                return None
+            raise UnknownIdiom('%s: %s is bound more than once' % (fn.qual, e.id))
+        if isinstance(e, ast.Attribute) and isinstance(e.value, ast.Name) and e.value.id == 'self':
+            if e.attr == '_unprepared_middleware':
+                if path:
+                    raise UnknownIdiom('%s: element of the registered middleware list' % fn.qual)
+                res.base = ('registered',)
+                return res
+            if fn.cls is None:
+                return None
+            cq = fn.cls if isinstance(fn.cls, str) else fn.cls.qual
+            ws = attr_writers(cq, e.attr)
+            if not ws:
+                return None
+            if res.stored is not None:
+                raise UnknownIdiom('%s: lifespan handler collection passes through two app attributes' % fn.qual)
+            if len(ws) != 1 or ws[0][2] is None:
+                raise UnknownIdiom('%s: self.%s is written in %d places' % (fn.qual, e.attr, len(ws)))
+            m, a, v, i = ws[0]
+            res.stored = (m, a, e.attr)
+            return go(m, v, ([i] if i is not None else []) + path, [], nxt)
+        if isinstance(e, (ast.Tuple, ast.List)) and path:
+            if path[0] >= len(e.elts) or any(isinstance(x, ast.Starred) for x in e.elts):
+                raise UnknownIdiom('%s: element %d of %s' % (fn.qual, path[0], short(e)))
+            return go(fn, e.elts[path[0]], path[1:], frames, nxt)
+        if isinstance(e, ast.Subscript):
+            if short(e.slice) == '::-1' and not path:
+                res.rev ^= 1
+                layer(fn, e, 'mat')
+                return go(fn, e.value, path, frames, nxt)
+            if isinstance(e.slice, ast.Constant) and isinstance(e.slice.value, int) and e.slice.value >= 0:
+                return go(fn, e.value, [e.slice.value] + path, frames, nxt)
+            raise UnknownIdiom('%s: lifespan handler collection %s' % (fn.qual, short(e)))
+        if isinstance(e, ast.GeneratorExp) and not path and len(e.generators) == 1 and not e.generators[0].ifs and not e.generators[0].is_async \
+                and isinstance(e.elt, ast.Name) and isinstance(e.generators[0].target, ast.Name) and e.elt.id == e.generators[0].target.id:
+            # (x for x in X): the items of X in X's order, as a one-shot iterator
+            layer(fn, e, 'shot')
+            return go(fn, e.generators[0].iter, path, frames, nxt)
+        if isinstance(e, (ast.GeneratorExp,)) and not path:
+            if res.stored is not None and res.one_shot is None and not res.materialised:
+                res.one_shot = (fn, e)
+                return res
+            raise UnknownIdiom('%s: lifespan handler collection %s' % (fn.qual, short(e)))
+        if isinstance(e, ast.Call) and not e.keywords and isinstance(e.func, ast.Name) and len(e.args) >= 1 \
+                and e.func.id in ('tuple', 'list') + _ONE_SHOT_BUILTINS and p.resolve_expr(fn.module, e.func, fn) in (None, 'builtins.' + e.func.id):
+            nm = e.func.id
+            if nm in ('tuple', 'list') and len(e.args) == 1:
+                if not path:
+                    layer(fn, e, 'mat')
+                return go(fn, e.args[0], path, frames, nxt)
+            if path:
+                raise UnknownIdiom('%s: element of %s' % (fn.qual, short(e)))
+            if nm == 'reversed' and len(e.args) == 1:
+                res.rev ^= 1
+                layer(fn, e, 'shot')
+                return go(fn, e.args[0], path, frames, nxt)
+            if nm == 'iter' and len(e.args) == 1:
+                layer(fn, e, 'shot')
+                return go(fn, e.args[0], path, frames, nxt)
+            if nm == 'enumerate' and fn is f and len(e.args) == 1:
+                return go(fn, e.args[0], path, frames, nxt)
+            # map / filter / zip / a stored enumerate: an iterator whose content this rule does not read
+            if res.stored is not None and res.one_shot is None and not res.materialised:
+                res.one_shot = (fn, e)
+                return res
+            raise UnknownIdiom('%s: lifespan handler collection %s' % (fn.qual, short(e)))
+        if isinstance(e, ast.Call):
+            h = p.resolve_callable(fn, e.func)
+            if h is None or isinstance(h, str) or not hasattr(h, 'params'):
+                if res.stored is not None:
+                    raise UnknownIdiom('%s: lifespan handler collection %s' % (fn.qual, short(e)))
+                return None
+            rets = [r for r in walk_self(h.node) if isinstance(r, ast.Return) and r.value is not None]
+            if len(rets) != 1:
+                raise UnknownIdiom('%s: %d return statements' % (h.qual, len(rets)))
+            res.helper = h
+            return go(h, rets[0].value, path, frames + [(fn, e, h)], nxt)
+        if res.stored is not None or res.helper is not None:
+            raise UnknownIdiom('%s: lifespan handler collection %s' % (fn.qual, short(e)))
+        return None
+
+    r = go(f, it, [], [])
+    if r is None or (res.stored is None and res.helper is None):
+        return None
+    return res
+
+
+def _built_handler_list(p, res):
+    """Read how the helper fills the list local `res.base` = ('built', h, name):
+    polarity of the insertions, the loop over the components, and - by abstract
+    evaluation of the loop body on the 4 presence cells of (process_startup,
+    process_shutdown) - what is inserted for which component.  Fills res.rev /
+    res.items / res.phase; returns {cell: [item, ...]} for the list."""
+    _k, h, name = res.base
+    post, handled = _post_reversals(h, [name])
+    ins = _insertions(h, name, handled)
+    if not ins:
+        raise UnknownIdiom('%s: nothing is inserted into %s' % (h.qual, name))
+    kinds = {k for k, _c in ins}
+    if kinds - {'head', 'tail'} or len(kinds) != 1:
+        raise UnknownIdiom('%s: %s is filled by %s' % (h.qual, name, ', '.join(short(c) for _k2, c in ins)))
+    if 'head' in kinds:
+        res.rev ^= 1
+    res.rev ^= post[name]
+    loops = [n for n in walk_self(h.node) if isinstance(n, ast.For) and any(c is x for _k2, c in ins for x in walk_self(n))]
+    loops = [lp for lp in loops if not any(lp is not o and any(x is lp for x in walk_self(o)) for o in loops)]
+    if len(loops) != 1 or not isinstance(loops[0].target, ast.Name) or loops[0].orelse:
+        raise UnknownIdiom('%s: the loop over the components that fills %s was not identified' % (h.qual, name))
+    lp = loops[0]
+    if not all(any(c is x for x in walk_self(lp)) for _k2, c in ins):
+        raise UnknownIdiom('%s: %s is also filled outside the component loop' % (h.qual, name))
+    comp = lp.target.id
+
+    def ev(e, env):
+        if isinstance(e, ast.Constant):
+            return e.value
+        if isinstance(e, ast.Name):
+            if e.id == comp:
+                return ('c',)
+            if e.id in env:
+                return env[e.id]
+            raise _Unevaluable('name %s' % e.id)
+        if isinstance(e, ast.Attribute) and isinstance(e.value, ast.Name) and e.value.id == comp:
+            if e.attr in env['__present__']:
+                return ('m', e.attr)
+            raise _Unevaluable('%s read on a component that does not have it' % short(e))
+        if isinstance(e, ast.UnaryOp) and isinstance(e.op, ast.Not):
+            return not ev(e.operand, env)
+        if isinstance(e, ast.BoolOp):
+            val = None
+            for v in e.values:
+                val = ev(v, env)
+                if isinstance(e.op, ast.Or) and val:
+                    return val
+                if isinstance(e.op, ast.And) and not val:
+                    return val
+            return val
+        if isinstance(e, ast.IfExp):
+            return ev(e.body if ev(e.test, env) else e.orelse, env)
+        if isinstance(e, ast.Compare) and len(e.ops) == 1 and isinstance(e.ops[0], (ast.Is, ast.IsNot)) \
+                and isinstance(e.comparators[0], ast.Constant) and e.comparators[0].value is None:
+            v = ev(e.left, env)
+            return (v is None) if isinstance(e.ops[0], ast.Is) else (v is not None)
+        if isinstance(e, ast.Call) and not e.keywords:
+            fn = e.func.attr if isinstance(e.func, ast.Attribute) else e.func.id if isinstance(e.func, ast.Name) else None
+            is_comp0 = bool(e.args) and isinstance(e.args[0], ast.Name) and e.args[0].id == comp
+            if fn in ('getattr', 'get_bound_method') and is_comp0 and len(e.args) in (2, 3):
+                nm = ev(e.args[1], env)
+                if not isinstance(nm, str):
+                    raise _Unevaluable('attribute name %s' % short(e.args[1]))
+                if nm in env['__present__']:
+                    return ('m', nm)
+                if len(e.args) == 3:
+                    return ev(e.args[2], env)
+                if fn == 'get_bound_method':
+                    return None
+                raise _Unevaluable('%s on a component without the attribute' % short(e))
+            if fn == 'hasattr' and is_comp0 and len(e.args) == 2:
+                nm = ev(e.args[1], env)
+                if not isinstance(nm, str):
+                    raise _Unevaluable('attribute name %s' % short(e.args[1]))
+                return nm in env['__present__']
+            if fn == 'callable' and len(e.args) == 1:
+                v = ev(e.args[0], env)
+                return isinstance(v, tuple) and v[0] == 'm'
+            if len(e.args) == 1 and fn not in ('len', 'bool', 'id', 'type', 'str', 'repr'):
+                # a wrapper around one method value (cast, adapter to a coroutine function): None passes through
+                v = ev(e.args[0], env)
+                if v is None or (isinstance(v, tuple) and v[0] == 'm'):
+                    return v
+        raise _Unevaluable('expression %s' % short(e))
+
+    def touches(st):
+        return any(isinstance(c, ast.Call) and isinstance(c.func, ast.Attribute) and isinstance(c.func.value, ast.Name)
+                   and c.func.attr in ('append', 'insert', 'appendleft', 'extend') for c in walk_self(st)) \
+            or any(isinstance(x, ast.Name) and isinstance(x.ctx, ast.Store) for x in walk_self(st)) \
+            or any(isinstance(x, (ast.Continue, ast.Break, ast.Return)) for x in walk_self(st))
+
+    def run_block(stmts, env, events):
+        for st in stmts:
+            if isinstance(st, ast.Continue):
+                return True
+            if isinstance(st, (ast.Break, ast.Return)):
+                raise _Unevaluable('the component loop is left early (%s)' % short(st))
+            if isinstance(st, (ast.Assign, ast.AnnAssign)):
+                if getattr(st, 'value', None) is None:
+                    continue
+                tg = st.targets if isinstance(st, ast.Assign) else [st.target]
+                v = ev(st.value, env)
+                for t in tg:
+                    if not isinstance(t, ast.Name):
+                        raise _Unevaluable('target %s' % short(t))
+                    env[t.id] = v
+            elif isinstance(st, ast.If):
+                try:
+                    t = ev(st.test, env)
+                except _Unevaluable:
+                    if touches(st):
+                        raise
+                    continue  # validation of a component (coroutine-ness ...): binds nothing, inserts nothing
+                if run_block(st.body if t else st.orelse, env, events):
+                    return True
+            elif isinstance(st, ast.Expr) and isinstance(st.value, ast.Call) and isinstance(st.value.func, ast.Attribute) \
+                    and isinstance(st.value.func.value, ast.Name) and st.value.func.attr in ('append', 'insert', 'appendleft', 'extend'):
+                c = st.value
+                if c.func.attr == 'insert' and len(c.args) == 2:
+                    item = c.args[1]
+                elif c.func.attr in ('append', 'appendleft') and len(c.args) == 1:
+                    item = c.args[0]
+                else:
+                    raise _Unevaluable('insertion %s' % short(c))
+                events.append((c.func.value.id, ev(item, env)))
+            elif isinstance(st, (ast.Expr, ast.Pass, ast.Raise)):
+                if isinstance(st, ast.Raise):
+                    return True
+                continue
+            else:
+                raise _Unevaluable('statement %s' % type(st).__name__)
+        return False
+
+    table = {}
+    for su in (False, True):
+        for sd in (False, True):
+            env = {'__present__': frozenset(n for n, on in zip(_LIFESPAN_PHASES, (su, sd)) if on)}
+            events = []
+            try:
+                run_block(lp.body, env, events)
+            except _Unevaluable as ex:
+                raise UnknownIdiom('%s: the component loop cannot be evaluated (%s)' % (h.qual, ex))
+            table[(su, sd)] = [v for (nm, v) in events if nm == name]
+    res.loop = lp
+    return table
+
+
+def _judge_prepared(run, f, lp, call, kind, phase, pr, table):
+    """The handler loop of a lifespan phase runs over a collection PREPARED
+    from the registered middleware (a helper looks the methods up once, the app
+    keeps the result).  Clauses, each necessary for "startup handlers in
+    registration order, shutdown handlers in reverse, on every lifespan cycle":
+      * what the app keeps is re-iterable: a materialised list/tuple, not the
+        iterator object returned by reversed()/iter()/map()/filter()/zip() or a
+        generator -- those are consumed by the first cycle;
+        W: two lifespan cycles on one App: the second shutdown calls no process_shutdown at all.
+      * the collection is built from the complete registered list: every
+        component that has the phase's method contributes it (4 presence cells);
+      * the net order (insertion polarity x reversals at preparation and at use)
+        is registration order for startup, its reverse for shutdown."""
+    p = run.project
+    p_ = 'lifespan %s (prepared handlers)' % phase
+    if pr.helper is not None:
+        run.use(pr.helper)
+    if pr.stored is not None:
+        run.use(pr.stored[0])
+        if pr.stored[0].name not in ('_prepare_middleware', 'add_middleware'):
+            # R6 (b) shows these run again on every registration; a collection stored elsewhere may be stale
+            raise UnknownIdiom('%s: self.%s is stored by %s, which is not known to run again when middleware is added' % (
+                f.qual, pr.stored[2], pr.stored[0].qual))
+        if pr.one_shot is not None:
+            fn, e = pr.one_shot
+            run.fail('%s: the handler collection the app keeps in self.%s must be re-iterable (a list/tuple); %s is a one-shot iterator, '
+                     'consumed by the first lifespan cycle' % (p_, pr.stored[2], short(e)), fn, e,
+                     runtime_witness='one App with a process_shutdown component driven through startup/shutdown twice: the second '
+                                     'shutdown calls no handler (lifespan.shutdown.complete is still sent)')
+        else:
+            run.ok('%s: self.%s holds a materialised, re-iterable collection' % (p_, pr.stored[2]), pr.stored[0].loc(pr.stored[1]), pr.stored[1])
+    elif pr.one_shot is not None:
+        raise UnknownIdiom('%s: %s is a one-shot iterator local to the call; whether it is traversed once cannot be read' % (f.qual, short(pr.one_shot[1])))
+    if pr.base is None:
+        return  # an iterator whose content is not read (reported above)
+    rev = pr.rev
+    src = None
+    if pr.base[0] == 'built':
+        h = pr.base[1]
+        # the loop over the components runs over the helper's argument = the complete registered list
+        sub = _trace_component_loop(p, f, pr)
+        rev ^= sub
+        want_attr = kind
+        cells_bad = []
+        for (su, sd), items in sorted(table.items()):
+            present = {'process_startup': su, 'process_shutdown': sd}[want_attr]
+            if pr.items == 'method':
+                want = [('m', want_attr)] if present else []
+                if items != want:
+                    cells_bad.append(((su, sd), items, want))
+            else:
+                if present and items != [('c',)] or len(items) > 1:
+                    cells_bad.append(((su, sd), items, [('c',)]))
+        if cells_bad:
+            (su, sd), items, want = cells_bad[0]
+            run.fail('%s: every registered component that has %s contributes it (once) to the prepared collection, and nothing else does'
+                     % (p_, want_attr), h, 'prepared[%s; component has %s]' % (pr.base[2], ','.join(
+                         n for n, on in zip(_LIFESPAN_PHASES, (su, sd)) if on) or 'nothing'), where=h.loc(pr.loop),
+                     witness=['contributes %s, expected %s' % (items or 'nothing', want or 'nothing'), '%d of 4 presence cells differ' % len(cells_bad)],
+                     runtime_witness='a middleware component of that shape: its %s is never called / a wrong method is called' % want_attr)
+        else:
+            run.ok('%s: 4 presence cells: each component with %s contributes it once' % (p_, want_attr), h.loc(pr.loop), 'presence table %s' % pr.base[2])
+        src = h
+    elif pr.base[0] != 'registered':
+        raise UnknownIdiom('%s: source of the prepared collection' % f.qual)
+    if pr.items != 'method' and isinstance(call.func, ast.Name):
+        raise UnknownIdiom('%s: the loop calls its items, which are not the phase methods' % f.qual)
+    if phase == 'startup':
+        run.check(rev == 0, 'startup handlers run in registration order', src or f, lp.iter, where=f.loc(lp),
+                  witness=['net reversals between the registered list and the loop: %d' % rev])
+    else:
+        run.check(rev == 1, 'shutdown handlers run in reverse registration order', src or f, lp.iter, where=f.loc(lp),
+                  witness=['net reversals between the registered list and the loop: %d' % rev])
+
+
+def _trace_component_loop(p, f, pr):
+    """The iterable of the helper's component loop, followed back (through the
+    helper's parameter and the call that stores the result) to the registered
+    middleware list; returns the parity of reversals on the way."""
+    _k, h, _name = pr.base
+    lp = pr.loop
+    sub = _Prepared()
+    sub.stored = None
+    it = lp.iter
+    rev = 0
+    frames = list(getattr(pr, 'frames', []))
+    fn = h
+    hops = 0
+    while True:
+        hops += 1
+        if hops > 16:
+            raise UnknownIdiom('%s: source of the component loop' % h.qual)
+        if isinstance(it, ast.Call) and isinstance(it.func, ast.Name) and len(it.args) == 1 and not it.keywords:
+            if it.func.id in ('list', 'tuple', 'iter'):
+                it = it.args[0]
+                continue
+            if it.func.id == 'reversed':
+                rev ^= 1
+                it = it.args[0]
+                continue
+        if isinstance(it, ast.Subscript) and short(it.slice) == '::-1':
+            rev ^= 1
+            it = it.value
+            continue
+        if is_self_attr(it, '_unprepared_middleware'):
+            return rev
+        if isinstance(it, ast.Name):
+            params = fn.params()
+            stores = sum(1 for x in walk_self(fn.node) if isinstance(x, ast.Name) and x.id == it.id and isinstance(x.ctx, (ast.Store, ast.Del)))
+            if it.id in params and not stores:
+                if frames:
+                    cfn, call, callee = frames.pop()
+                    idx = params.index(it.id) - (1 if callee.cls is not None and params and params[0] in ('self', 'cls') else 0)
+                    arg = None
+                    for k in call.keywords:
+                        if k.arg == it.id:
+                            arg = k.value
+                    if arg is None and 0 <= idx < len(call.args) and not any(isinstance(a, ast.Starred) for a in call.args):
+                        arg = call.args[idx]
+                    if arg is None:
+                        raise UnknownIdiom('%s: argument for %s not found in %s' % (cfn.qual, it.id, short(call)))
+                    fn, it = cfn, arg
+                    continue
+                # R6 (b): every add_middleware hands the complete registered list to _prepare_middleware
+                if fn.name == '_prepare_middleware' and len(params) > 1 and it.id == params[1]:
+                    return rev
+            binds = [a for a in walk_self(fn.node) if isinstance(a, ast.Assign) and len(a.targets) == 1
+                     and isinstance(a.targets[0], ast.Name) and a.targets[0].id == it.id]
+            if len(binds) == 1 and stores == 1:
+                it = binds[0].value
+                continue
+        raise UnknownIdiom('%s: the component loop runs over %s, which was not traced to the registered middleware list' % (fn.qual, short(it)))
+
+
 def r5_lifespan(run):
     p = run.project
     f = p.func('falcon.asgi.app.App._call_lifespan_handlers')
@@ -924,17 +1404,66 @@ def r5_lifespan(run):
     found = {}
     extra_calls = []
 
+    # handler collections prepared ahead of time (a helper resolves the methods once, the app keeps the result):
+    # the loop then calls its own target; which phase it serves is read from what the helper put into the collection
+    prepared = {}
+
+    def prepared_of(lp):
+        if id(lp) not in prepared:
+            pr = _trace_lifespan_source(p, f, lp.iter)
+            table = None
+            if pr is not None and pr.base is not None and pr.base[0] == 'built':
+                table = _built_handler_list(p, pr)
+                vals = {v for items in table.values() for v in items}
+                if vals and all(isinstance(v, tuple) and v[0] == 'm' for v in vals):
+                    pr.items = 'method'
+                    if len({v[1] for v in vals}) == 1:
+                        pr.phase = next(iter(vals))[1]
+                elif vals == {('c',)}:
+                    pr.items = 'component'
+            prepared[id(lp)] = (pr, table)
+        return prepared[id(lp)]
+
+    def target_names(lp):
+        t = lp.target
+        return {x.id for x in (t.elts if isinstance(t, (ast.Tuple, ast.List)) else [t]) if isinstance(x, ast.Name)}
+
+    def call_kind(lp, c):
+        if isinstance(c.func, ast.Attribute):
+            return c.func.attr
+        pr, _t = prepared_of(lp)
+        if pr is None:
+            return None
+        if pr.one_shot is not None and pr.base is None:
+            return '?'  # a stored iterator whose content is not read: the phase is the one no other loop serves
+        if pr.items != 'method' or pr.phase not in _LIFESPAN_PHASES:
+            raise UnknownIdiom('%s: the loop calls the items of %s, which were not identified as the methods of one lifespan phase' % (f.qual, short(lp.iter)))
+        return pr.phase
+
     def own_calls(lp):
         """process_* calls of this loop that are not inside a loop nested in it"""
         inner = {id(x) for sub in walk_self(lp) if sub is not lp and isinstance(sub, (ast.For, ast.AsyncFor)) for x in walk_self(sub)}
-        return [c for c in walk_self(lp) if id(c) not in inner and isinstance(c, ast.Call) and isinstance(c.func, ast.Attribute)
-                and c.func.attr in ('process_startup', 'process_shutdown')]
+        tn = target_names(lp)
+        out = [c for c in walk_self(lp) if id(c) not in inner and isinstance(c, ast.Call) and isinstance(c.func, ast.Attribute)
+               and c.func.attr in _LIFESPAN_PHASES]
+        direct = [c for c in walk_self(lp) if id(c) not in inner and isinstance(c, ast.Call) and isinstance(c.func, ast.Name) and c.func.id in tn]
+        if direct and not out and all(call_kind(lp, c) in _LIFESPAN_PHASES + ('?',) for c in direct):
+            out = direct
+        return out
+
+    pending = [lp for lp in loops if own_calls(lp) and call_kind(lp, own_calls(lp)[0]) == '?']
+    served = {call_kind(lp, own_calls(lp)[0]) for lp in loops if own_calls(lp)} - {'?'}
+    missing = [k for k in _LIFESPAN_PHASES if k not in served]
+    if pending and not (len(pending) == 1 and len(missing) == 1):
+        raise UnknownIdiom('%s: %d handler loops run over stored iterators whose content cannot be read' % (f.qual, len(pending)))
 
     for lp in loops:
         calls = own_calls(lp)
         if not calls:
             continue
-        kind = calls[0].func.attr
+        kind = call_kind(lp, calls[0])
+        if kind == '?':
+            kind = missing[0]
         nested_in_other = any(lp is not o and any(x is lp for x in walk_self(o)) for o in loops if own_calls(o))
         if kind in found or nested_in_other or len(calls) > 1:
             extra_calls += calls if (kind in found or nested_in_other) else calls[1:]
@@ -987,11 +1516,15 @@ def r5_lifespan(run):
         base = it.args[0] if is_rev else it
         if isinstance(base, ast.Call) and isinstance(base.func, ast.Name) and base.func.id in ('list', 'tuple') and len(base.args) == 1:
             base = base.args[0]
-        run.check(is_self_attr(base, '_unprepared_middleware'), 'lifespan %s iterates the registered middleware list' % phase, f, it)
-        if phase == 'startup':
-            run.check(not is_rev and not (isinstance(it, ast.Subscript)), 'startup handlers run in registration order', f, it)
+        pr, table = (None, None) if is_self_attr(base, '_unprepared_middleware') else prepared_of(lp)
+        if pr is not None:
+            _judge_prepared(run, f, lp, call, kind, phase, pr, table)
         else:
-            run.check(is_rev, 'shutdown handlers run in reverse registration order', f, it)
+            run.check(is_self_attr(base, '_unprepared_middleware'), 'lifespan %s iterates the registered middleware list' % phase, f, it)
+            if phase == 'startup':
+                run.check(not is_rev and not (isinstance(it, ast.Subscript)), 'startup handlers run in registration order', f, it)
+            else:
+                run.check(is_rev, 'shutdown handlers run in reverse registration order', f, it)
         iter_node = single([i for i in cfg.nodes_for(lp) if cfg.node(i).kind == 'iter'], 'loop header', f.qual)
         call_nodes = [n.id for n in cfg.live_nodes() if any(c is call for c in n.calls())]
         cn = single(call_nodes, '%s call node' % kind, f.qual)
@@ -1221,6 +1754,79 @@ _OWN_NAMESPACE_ONLY = ('vars', '__dict__')          # miss inherited members
 _MRO_WIDE = ('getmembers', 'dir')                   # inspect.getmembers / dir() walk the MRO
 
 
+_MRO_WALK = ('__mro__', 'mro', 'getmro')              # an explicit walk over the classes of the MRO
+
+
+def _enum_names(exprs):
+    names = set()
+    for e in exprs:
+        for x in ast.walk(e):
+            if isinstance(x, ast.Call) and isinstance(x.func, ast.Name):
+                names.add(x.func.id)
+            elif isinstance(x, ast.Call) and isinstance(x.func, ast.Attribute):
+                names.add(x.func.attr)
+            elif isinstance(x, ast.Attribute):
+                names.add(x.attr)
+    return names
+
+
+def _own_namespace_of(e, pname):
+    """`vars(<pname>)` / `<pname>.__dict__` occurs in e: the namespace of that one class"""
+    for x in ast.walk(e):
+        if isinstance(x, ast.Call) and isinstance(x.func, ast.Name) and x.func.id == 'vars' and len(x.args) == 1 \
+                and isinstance(x.args[0], ast.Name) and x.args[0].id == pname:
+            return True
+        if isinstance(x, ast.Attribute) and x.attr == '__dict__' and isinstance(x.value, ast.Name) and x.value.id == pname:
+            return True
+    return False
+
+
+def _member_listing_helper(p, g, it, param):
+    """`it` = [list|tuple|sorted](helper(<param>)) with helper a function of the
+    same module: (helper, its parameter for the class, the iterables of its
+    loops and comprehensions), else None.  A local of the helper bound once from
+    an expression over the class (`ns = vars(cls)`) is read as that expression."""
+    e = it
+    while isinstance(e, ast.Call) and isinstance(e.func, ast.Name) and e.func.id in ('list', 'tuple', 'sorted') and len(e.args) == 1:
+        e = e.args[0]
+    if not (isinstance(e, ast.Call) and isinstance(e.func, ast.Name)):
+        return None
+    pos = [i for i, a in enumerate(e.args) if isinstance(a, ast.Name) and a.id == param]
+    if len(pos) != 1 or e.keywords and any(isinstance(k.value, ast.Name) and k.value.id == param for k in e.keywords):
+        return None
+    h = p.resolve_callable(g, e.func)
+    if h is None or isinstance(h, str) or not hasattr(h, 'params') or h.cls is not None:
+        return None
+    hp = h.params()
+    if pos[0] >= len(hp):
+        return None
+    hparam = hp[pos[0]]
+    if any(isinstance(x, ast.Name) and x.id == hparam and isinstance(x.ctx, (ast.Store, ast.Del)) for x in ast.walk(h.node)):
+        raise UnknownIdiom('%s: rebinds its class parameter %s' % (h.qual, hparam))
+    enums = []
+    for x in ast.walk(h.node):
+        if isinstance(x, (ast.For, ast.AsyncFor)):
+            enums.append(x.iter)
+        elif isinstance(x, ast.comprehension):
+            enums.append(x.iter)
+    # locals bound once from an expression over the class stand for that expression
+    out = []
+    for en in enums:
+        extra = []
+        for x in ast.walk(en):
+            if isinstance(x, ast.Name) and x.id != hparam:
+                binds = [a for a in ast.walk(h.node) if isinstance(a, ast.Assign) and len(a.targets) == 1
+                         and isinstance(a.targets[0], ast.Name) and a.targets[0].id == x.id]
+                stores = sum(1 for y in ast.walk(h.node) if isinstance(y, ast.Name) and y.id == x.id and isinstance(y.ctx, ast.Store))
+                if len(binds) == 1 and stores == 1 and any(isinstance(y, ast.Name) and y.id == hparam for y in ast.walk(binds[0].value)):
+                    extra.append(binds[0].value)
+        out.append(en)
+        out += extra
+    if not out:
+        return None
+    return h, hparam, out
+
+
 def r7_class_hooks(run):
     """`@before(...)`/`@after(...)` on a class wraps the class's responders;
     a responder inherited from a base class is a responder of that class.  The
@@ -1272,21 +1878,37 @@ def r7_class_hooks(run):
         if not loops:
             raise AnchorError('%s: no loop over the members of the decorated class' % g.qual)
         for lp in loops:
-            names = set()
-            for x in ast.walk(lp.iter):
-                if isinstance(x, ast.Call) and isinstance(x.func, ast.Name):
-                    names.add(x.func.id)
-                elif isinstance(x, ast.Call) and isinstance(x.func, ast.Attribute):
-                    names.add(x.func.attr)
-                elif isinstance(x, ast.Attribute):
-                    names.add(x.attr)
+            names = _enum_names([lp.iter])
             if names & set(_OWN_NAMESPACE_ONLY):
                 run.fail('%s enumerates only the decorated class\'s own namespace: inherited responders are not wrapped, the hook never runs for them' % outer.name,
                          g, lp.iter, runtime_witness='class Base: on_get...; @falcon.before(reject) class Child(Base): pass -> GET reaches on_get without the hook')
             elif names & set(_MRO_WIDE):
                 run.ok('%s enumerates the members of the decorated class across its MRO' % outer.name, g.loc(lp), lp.iter)
             else:
-                raise UnknownIdiom('%s: member enumeration %s' % (g.qual, short(lp.iter)))
+                # the (name, member) pairs may be listed by a module-level helper that is handed the decorated class:
+                # the enumeration is then the helper's own loops / comprehensions over that class
+                hh = _member_listing_helper(p, g, lp.iter, param)
+                if hh is None:
+                    raise UnknownIdiom('%s: member enumeration %s' % (g.qual, short(lp.iter)))
+                h, hparam, enums = hh
+                run.use(h)
+                # a membership filter on the class's own namespace inside the helper has the same effect as enumerating it
+                filt = [t for t in ast.walk(h.node) if isinstance(t, ast.Compare) and any(isinstance(o, (ast.In, ast.NotIn)) for o in t.ops)
+                        and any(_own_namespace_of(c, hparam) for c in t.comparators)]
+                for t in filt:
+                    run.fail('%s filters the members by the decorated class\'s own namespace: inherited responders are not wrapped, the hook never runs for them' % outer.name,
+                             h, t, runtime_witness='class Base: on_get...; @falcon.before(reject) class Child(Base): pass -> GET reaches on_get without the hook')
+                enums = [e for e in enums if not any(e is c or any(x is e for x in ast.walk(c)) for t in filt for c in t.comparators)]
+                own = [e for e in enums if _own_namespace_of(e, hparam)]
+                wide = [e for e in enums if _enum_names([e]) & set(_MRO_WIDE + _MRO_WALK)]
+                foreign = [e for e in enums if _enum_names([e]) & set(_OWN_NAMESPACE_ONLY) and not _own_namespace_of(e, hparam)]
+                if own and not wide:
+                    run.fail('%s enumerates only the decorated class\'s own namespace: inherited responders are not wrapped, the hook never runs for them' % outer.name,
+                             h, own[0], runtime_witness='class Base: on_get...; @falcon.before(reject) class Child(Base): pass -> GET reaches on_get without the hook')
+                elif wide and not own and (not foreign or any(_enum_names([e]) & set(_MRO_WALK) for e in wide)):
+                    run.ok('%s enumerates the members of the decorated class across its MRO (through %s)' % (outer.name, h.name), h.loc(wide[0]), wide[0])
+                else:
+                    raise UnknownIdiom('%s: member enumeration %s' % (h.qual, ', '.join(short(e) for e in enums) or short(lp.iter)))
             # a filter inside the loop that keeps only names of the class's OWN namespace has the same effect
             own_names = set()
             for a in walk_self(g.node):
